@@ -46,7 +46,7 @@ def record_world(task):
     rng = random.Random(seed)
     t0 = time.time()
     try:
-        S = hs.setup_world(w, rng, chem=opts.get("chem"))
+        S = hs.setup_world(w, rng, chem=opts.get("chem"), jitter=opts.get("jitter", 0.0))
         jn, proj = hs.network(S, rng, opts.get("nshell", 1), subset=opts.get("subset", False))
     except worlds.ProjectionError as ex:
         return {"error": "projection", "what": str(ex), "name": w["name"], "variant": "jump network"}
@@ -128,7 +128,7 @@ def world_tasks(ctx, quick):
         add("fcc", chem=0, starsets=[(1, False), (2, True)], calcs=[1, 2])
         add("hcp", chem=0, starsets=[(1, True), (2, False)], calcs=[1, 2], lattice=True)
         add("b2", chem=rng.randrange(2), starsets=[(2, True)], calcs=[1, 2], nshell=2)
-        add("diamond", chem=0, starsets=[(2, False), (3, True)], calcs=[1, 2])
+        add("diamond", chem=0, starsets=[(2, False), (3, True)], calcs=[1, 2], jitter=1e-10)   # noise below the symmetry threshold
         add("bcc", chem=0, starsets=[(2, True)], calcs=[2], nshell=2, subset=True)
         add("fccoct", chem=2, starsets=[(1, True), (2, False)], calcs=[1])
         add("tric2", chem=0, starsets=both, calcs=[])
@@ -146,7 +146,7 @@ def world_tasks(ctx, quick):
         for n in range(60):
             w = worlds.random_world(rng, maxatoms=4)
             add(w["name"], w=w, starsets=both, calcs=[1, 2] if n % 3 == 0 else [1], nshell=1 + (n % 2),
-                subset=bool(n % 2), lattice=bool(n % 3 == 1))
+                subset=bool(n % 2), lattice=bool(n % 3 == 1), jitter=1e-10 if n % 4 == 1 else 0.0)
     return tasks
 
 
